@@ -13,3 +13,4 @@ def check(rep, tier):
     rep.run(containers.run_exact, rep, tier, clauses=('K-value',))
     from contracts import value_transparency
     rep.run(value_transparency.run, rep, tier)
+    rep.run(value_transparency.run_ops, rep, tier)
